@@ -32,14 +32,40 @@ def parse_meta(path):
     return meta
 
 def sh(cmd, timeout, cwd=None, mem=True, mem_kb=None):
-    pre = 'ulimit -v %d; ' % (mem_kb or MEM_KB) if mem else ''
+    """run a tool under a wall-clock limit and a RESIDENT-memory watchdog.
+    A plain `ulimit -v` makes the SAT solver's allocations fail and minisat/kissat then report dozens of
+    nonsensical FAILED properties (measured); so the address-space limit is only a distant backstop (2x + 2 GB)
+    and the process is killed -- result discarded, exit 2 -- as soon as its resident set exceeds the limit."""
+    limit_kb = (mem_kb or MEM_KB)
+    pre = 'ulimit -v %d; ' % (2 * limit_kb + 2 * 1024 * 1024) if mem else ''
     t0 = time.time()
-    try:
-        r = subprocess.run(['bash', '-c', pre + 'exec "$@"', 'x'] + cmd, capture_output=True, text=True,
-                           timeout=timeout, cwd=cwd)
-        return r.returncode, r.stdout, r.stderr, time.time() - t0
-    except subprocess.TimeoutExpired as e:
-        return -9, (e.stdout or b'').decode(errors='replace') if isinstance(e.stdout, bytes) else (e.stdout or ''), 'TIMEOUT', time.time() - t0
+    import threading
+    p = subprocess.Popen(['bash', '-c', pre + 'exec "$@"', 'x'] + cmd, stdout=subprocess.PIPE, stderr=subprocess.PIPE, text=True, cwd=cwd)
+    killed = {'why': None}
+    def rss_kb(pid):
+        try:
+            tot = 0
+            for q in [pid] + [int(x) for x in subprocess.run(['pgrep', '-P', str(pid)], capture_output=True, text=True).stdout.split()]:
+                for ln in open('/proc/%d/status' % q):
+                    if ln.startswith('VmRSS:'): tot += int(ln.split()[1])
+            return tot
+        except Exception:
+            return 0
+    def watch():
+        while p.poll() is None:
+            if time.time() - t0 > timeout:
+                killed['why'] = 'TIMEOUT'; p.kill(); return
+            if mem and rss_kb(p.pid) > limit_kb:
+                killed['why'] = 'out of memory: resident set above %d kB (watchdog)' % limit_kb; p.kill(); return
+            time.sleep(0.5)
+    th = threading.Thread(target=watch, daemon=True); th.start()
+    out, err = p.communicate()
+    th.join(timeout=2)
+    if killed['why'] == 'TIMEOUT':
+        return -9, out or '', 'TIMEOUT', time.time() - t0
+    if killed['why']:
+        return -9, out or '', killed['why'], time.time() - t0
+    return p.returncode, out, err, time.time() - t0
 
 def classify(prop, ens_names, enforce):
     """-> (class, display name)"""
